@@ -41,6 +41,7 @@ fn main() {
                 "parsefocus" => gen2::parsefocus(size, &mut out),
                 "ascii" => gen2::ascii(size, &mut rng, &mut out),
                 "groups" => gen2::groups(size, &mut rng, &mut out),
+                "splitopt" => gen2::splitopt(size, &mut out),
                 "fromstr" => gen3::fromstr(size, &mut rng, &mut out),
                 "oci" => gen3::oci(size, &mut out),
                 "threads" => gen3::threads(size, &mut rng, &mut out),
@@ -48,7 +49,7 @@ fn main() {
             }
             gen::write(&out, &args[7]);
         }
-        Some("suites") => println!("hist family scope scope1 parse cells prio dup orders pairs single clonescope junk parsefocus ascii groups fromstr oci threads"),
+        Some("suites") => println!("hist family scope scope1 parse cells prio dup orders pairs single clonescope junk parsefocus ascii groups splitopt fromstr oci threads"),
         Some("run") if args.len() == 6 => {
             let input = std::io::BufReader::new(std::fs::File::open(&args[2]).expect("ops"));
             let mut full = BufWriter::new(std::fs::File::create(&args[3]).expect("full"));
